@@ -155,14 +155,17 @@ func optionDiff(stored *api.Pin, req *api.PinOptions, effMin, effMax int) []stri
 		}
 		for k := range stored.Metadata {
 			if _, ok := req.Metadata[k]; !ok {
-				if k == "" {
+				switch {
+				case k == "":
 					kinds["empty-key-removed"] = true
-				} else {
+				case stored.Metadata[k] == "":
+					kinds["empty-valued-key-removed"] = true
+				default:
 					kinds["key-removed"] = true
 				}
 			}
 		}
-		for _, k := range []string{"value-changed", "key-added", "key-removed", "empty-key-removed", "key-added-with-empty-value", "empty-key-added"} {
+		for _, k := range []string{"value-changed", "key-added", "key-removed", "empty-valued-key-removed", "empty-key-removed", "key-added-with-empty-value", "empty-key-added"} {
 			if kinds[k] {
 				d = append(d, "metadata("+k+")")
 				break
